@@ -44,6 +44,9 @@ func confsByName(names ...string) []*SConf {
 // runServerProp is the common driver of the server-handshake properties.
 func runServerProp(env *Env, prop string, o enumOpts, rule string, nontrivial func(c *SCase) bool) error {
 	env.Header = hsHeader + "Corr." + prop + "."
+	if prop == "C09" {
+		env.Header = hsHeader + "Hs.ClientBuilder Corr.Interop Corr.C09."
+	}
 	env.ShardSize = 250
 	env.Rule = hsRule + rule + " Distinct by (configuration, callbacks, script)."
 	var rc SCase
@@ -137,7 +140,7 @@ func init() {
 		defer func() { wrapCase = nil }()
 		var ro optionsCase
 		if ok, _ := env.ReplayDesc(&ro); ok && ro.Options {
-			env.Header = hsHeader + "Corr.C09."
+			env.Header = hsHeader + "Hs.ClientBuilder Corr.Interop Corr.C09."
 			seq := make([]optCall, len(ro.Calls))
 			for i, x := range ro.Calls {
 				seq[i] = optCall{Enc: x.Enc, Arg: x.Arg}
@@ -152,9 +155,28 @@ func init() {
 		if env.Replay == "" {
 			defer addOptionsCases(env)
 		}
+		var ri interopCase
+		if ok, _ := env.ReplayDesc(&ri); ok && ri.Interop {
+			env.Header = hsHeader + "Hs.ClientBuilder Corr.Interop Corr.C09."
+			srv := newScriptServer(ri.Conf, ri.Oracle)
+			defer srv.Close()
+			c := srv.runInterop(ri.CConf)
+			env.Add(c.coq(), c)
+			return nil
+		}
+		if env.Replay == "" {
+			// a real client against a real server
+			defer addInteropCases(env, func(c *interopCase) {
+				env.Add(c.coq(), c)
+				env.Count("both-real-roles:" + c.Conf.Kind + ":" + c.Out)
+				if c.SrvEst && c.Out == "ret:established" {
+					env.NonTrivial("interop/" + c.Conf.Name + "/" + c.Oracle.Name + "/" + c.CConf.Name)
+				}
+			})
+		}
 		var rp pipelinedCase
 		if ok, _ := env.ReplayDesc(&rp); ok && rp.Pipelined {
-			env.Header = hsHeader + "Corr.C09."
+			env.Header = hsHeader + "Hs.ClientBuilder Corr.Interop Corr.C09."
 			for _, sc := range pipeScenarios {
 				if sc.name == rp.Name {
 					c := runPipelined(sc)
